@@ -224,4 +224,250 @@ theorem add_writes_planned (fs : Files) (r : Req) (pl : Plan) (hpre : precheck f
   rw [hpre]
   exact ⟨(commit_writes_planned fs pl he ht hd hm).1, (commit_writes_planned fs pl he ht hd hm).2.1⟩
 
+/-! ## add_basis_from_dict -/
+
+/-- **nothing is overwritten by `add_basis_from_dict`** either — whether it succeeds or raises at any point -/
+theorem addDict_monotone (expand : String → Except PyErr (List String)) (valid : Dict → Bool) (fs : Files) (bs : Dict)
+    (r : DictReq) (refs : RefSpec) (p : String) (v : J) (hp : p ≠ "METADATA.json") (h : getFile fs p = some v) :
+    getFile (addBasisFromDict expand valid fs bs r refs).1 p = some v := by
+  unfold addBasisFromDict
+  cases hc : componentOf expand bs r refs with
+  | error e => exact h
+  | ok comp =>
+    simp only
+    by_cases hv : valid comp = true
+    · simp only [hv, Bool.not_true, Bool.false_eq_true, if_false]
+      by_cases hex : exists_ fs r.compRel = true
+      · simp only [hex, if_true]; exact h
+      · simp only [hex, Bool.false_eq_true, if_false]
+        apply add_monotone _ _ p v hp
+        rw [getFile_append_of_exists fs p _ _ (exists_of_getFile fs p v h)]
+        exact h
+    · simp only [hv, Bool.not_false, if_true]; exact h
+
+/-- **input that fails validation leaves the directory exactly as it was** -/
+theorem addDict_invalid_noop (expand : String → Except PyErr (List String)) (valid : Dict → Bool) (fs : Files) (bs : Dict)
+    (r : DictReq) (refs : RefSpec) (comp : Dict) (hc : componentOf expand bs r refs = .ok comp) (hv : valid comp = false) :
+    addBasisFromDict expand valid fs bs r refs = (fs, some .runtime) := by
+  simp [addBasisFromDict, hc, hv]
+
+/-- a reference map that names an element the data does not have, names one twice, or cannot be expanded: refused, nothing written -/
+theorem addDict_bad_refs_noop (expand : String → Except PyErr (List String)) (valid : Dict → Bool) (fs : Files) (bs : Dict)
+    (r : DictReq) (refs : RefSpec) (e : PyErr) (hc : componentOf expand bs r refs = .error e) :
+    addBasisFromDict expand valid fs bs r refs = (fs, some e) := by
+  simp [addBasisFromDict, hc]
+
+/-- **an existing component file is never replaced**: the call is refused and the directory is unchanged -/
+theorem addDict_refuses_existing_component (expand : String → Except PyErr (List String)) (valid : Dict → Bool) (fs : Files)
+    (bs : Dict) (r : DictReq) (refs : RefSpec) (hex : exists_ fs r.compRel = true) :
+    (addBasisFromDict expand valid fs bs r refs).1 = fs ∧ (addBasisFromDict expand valid fs bs r refs).2.isSome = true := by
+  unfold addBasisFromDict
+  cases hc : componentOf expand bs r refs with
+  | error e => simp
+  | ok comp =>
+    by_cases hv : valid comp = true
+    · simp [hv, hex]
+    · simp [hv]
+
+/-- **what is stored is the validated dictionary**: once validation and the existence check have passed, the component
+file holds exactly the dictionary that was validated — whatever `add_from_components` does afterwards -/
+theorem addDict_component_stored (expand : String → Except PyErr (List String)) (valid : Dict → Bool) (fs : Files)
+    (bs : Dict) (r : DictReq) (refs : RefSpec) (comp : Dict) (hc : componentOf expand bs r refs = .ok comp)
+    (hv : valid comp = true) (hex : exists_ fs r.compRel = false) (hm : r.compRel ≠ "METADATA.json") :
+    getFile (addBasisFromDict expand valid fs bs r refs).1 r.compRel = some (.obj comp) := by
+  simp only [addBasisFromDict, hc, hv, hex, Bool.not_true, Bool.false_eq_true, if_false]
+  exact add_monotone _ _ _ _ hm (getFile_append_new fs r.compRel (.obj comp) hex)
+
+/-! the validated dictionary is the caller's data with only the reference lists (and the two description fields) set -/
+
+/-- an element entry without its reference list -/
+def stripRefs : J → J
+  | .obj e => .obj (Dict.erase e "references")
+  | j => j
+
+theorem erase_set (e : Dict) (k : String) (v : J) : Dict.erase (Dict.set e k v) k = Dict.erase e k := by
+  induction e with
+  | nil => simp [Dict.set, Dict.erase]
+  | cons kv rest ih =>
+    obtain ⟨k0, v0⟩ := kv
+    unfold Dict.set
+    by_cases h : (k0 == k) = true
+    · simp only [h, if_true]
+      have hk : k0 = k := by simpa using h
+      simp [Dict.erase, List.filter_cons, hk]
+    · simp only [h, Bool.false_eq_true, if_false]
+      unfold Dict.erase at ih ⊢
+      simp only [List.filter_cons]
+      rw [ih]
+
+theorem strip_setRefs (els els' : Dict) (el : String) (v : J) (h : setRefs els el v = .ok els') :
+    els'.map (fun kv => (kv.1, stripRefs kv.2)) = els.map (fun kv => (kv.1, stripRefs kv.2)) := by
+  unfold setRefs at h
+  cases hg : Dict.get? els el with
+  | none => simp [hg] at h
+  | some j =>
+    cases j with
+    | obj e =>
+      simp only [hg] at h
+      cases h
+      induction els with
+      | nil => simp [Dict.get?] at hg
+      | cons kv rest ih =>
+        obtain ⟨k0, v0⟩ := kv
+        unfold Dict.set
+        by_cases hk : (k0 == el) = true
+        · simp only [hk, if_true, List.map_cons]
+          have : v0 = .obj e := by
+            simp only [Dict.get?, List.find?_cons, hk, Option.map_some, Option.some.injEq] at hg
+            exact hg
+          subst this
+          simp [stripRefs, erase_set]
+        · simp only [hk, Bool.false_eq_true, if_false, List.map_cons]
+          have hg' : Dict.get? rest el = some (.obj e) := by
+            simp only [Dict.get?, List.find?_cons, hk] at hg
+            exact hg
+          rw [ih hg']
+    | null => simp [hg] at h
+    | bool _ => simp [hg] at h
+    | num _ => simp [hg] at h
+    | str _ => simp [hg] at h
+    | arr _ => simp [hg] at h
+
+theorem strip_attachAll_aux (l : List (String × J)) (v : J) :
+    ∀ (acc : Except PyErr Dict) (els0 out : Dict),
+      (∀ d, acc = .ok d → d.map (fun kv => (kv.1, stripRefs kv.2)) = els0.map (fun kv => (kv.1, stripRefs kv.2))) →
+      l.foldl (fun acc kv => match acc with
+        | .error e => .error e
+        | .ok d => setRefs d kv.1 v) acc = .ok out →
+      out.map (fun kv => (kv.1, stripRefs kv.2)) = els0.map (fun kv => (kv.1, stripRefs kv.2)) := by
+  induction l with
+  | nil => intro acc els0 out hacc h; exact hacc out h
+  | cons kv rest ih =>
+    intro acc els0 out hacc h
+    simp only [List.foldl_cons] at h
+    refine ih _ els0 out ?_ h
+    intro d hd
+    cases acc with
+    | error e => simp at hd
+    | ok d0 =>
+      simp only at hd
+      rw [strip_setRefs d0 d kv.1 v hd]
+      exact hacc d0 rfl
+
+theorem strip_attachAll (els out : Dict) (v : J) (h : attachAll els v = .ok out) :
+    out.map (fun kv => (kv.1, stripRefs kv.2)) = els.map (fun kv => (kv.1, stripRefs kv.2)) := by
+  unfold attachAll at h
+  exact strip_attachAll_aux els v (.ok els) els out (by intro d hd; cases hd; rfl) h
+
+theorem strip_attachAllIn (zs : List String) : ∀ (els out : Dict), attachRefs.attachAllIn els zs = .ok out →
+    out.map (fun kv => (kv.1, stripRefs kv.2)) = els.map (fun kv => (kv.1, stripRefs kv.2)) := by
+  induction zs with
+  | nil => intro els out h; simp [attachRefs.attachAllIn] at h; subst h; rfl
+  | cons z rest ih =>
+    intro els out h
+    unfold attachRefs.attachAllIn at h
+    cases hs : setRefs els z (.arr []) with
+    | error e => simp [hs] at h
+    | ok els' =>
+      simp only [hs] at h
+      rw [ih els' out h, strip_setRefs els els' z _ hs]
+
+theorem strip_attachGroup (orig : List String) (v : RefVal) (zs : List String) :
+    ∀ (st out : Dict × List String), attachGroup orig v zs st = .ok out →
+      out.1.map (fun kv => (kv.1, stripRefs kv.2)) = st.1.map (fun kv => (kv.1, stripRefs kv.2)) := by
+  induction zs with
+  | nil => intro st out h; simp [attachGroup] at h; subst h; rfl
+  | cons z rest ih =>
+    intro st out h
+    obtain ⟨els, done⟩ := st
+    unfold attachGroup at h
+    split at h
+    · cases h
+    · split at h
+      · cases h
+      · cases hs : setRefs els z v.toJ with
+        | error e => simp [hs] at h
+        | ok els' =>
+          simp only [hs] at h
+          rw [ih (els', done) out h]
+          exact strip_setRefs els els' z _ hs
+
+theorem strip_attachMap (expand : String → Except PyErr (List String)) (orig : List String) (m : List (String × RefVal)) :
+    ∀ (st out : Dict × List String), attachMap expand orig m st = .ok out →
+      out.1.map (fun kv => (kv.1, stripRefs kv.2)) = st.1.map (fun kv => (kv.1, stripRefs kv.2)) := by
+  induction m with
+  | nil => intro st out h; simp [attachMap] at h; subst h; rfl
+  | cons kv rest ih =>
+    intro st out h
+    obtain ⟨els, done⟩ := st
+    obtain ⟨k, v⟩ := kv
+    unfold attachMap at h
+    cases he : expand k with
+    | error e => simp [he] at h
+    | ok zs =>
+      simp only [he] at h
+      cases hg : attachGroup orig v zs (els, done) with
+      | error e => simp [hg] at h
+      | ok st' =>
+        obtain ⟨els', done'⟩ := st'
+        simp only [hg] at h
+        rw [ih _ out h]
+        exact strip_attachGroup orig v zs (els, done) (els', done') hg
+
+/-- **attaching the references touches nothing but the reference lists**: same elements in the same order, every element
+entry identical apart from its `references` key — for every form of the `refs` argument -/
+theorem attachRefs_keeps_data (expand : String → Except PyErr (List String)) (els out : Dict) (refs : RefSpec)
+    (h : attachRefs expand els refs = .ok out) :
+    out.map (fun kv => (kv.1, stripRefs kv.2)) = els.map (fun kv => (kv.1, stripRefs kv.2)) := by
+  cases refs with
+  | none => exact strip_attachAll els out _ h
+  | one k => exact strip_attachAll els out _ h
+  | many ks => exact strip_attachAll els out _ h
+  | map m =>
+    unfold attachRefs at h
+    cases hm : attachMap expand (Dict.keys els) m (els, []) with
+    | error e => simp [hm] at h
+    | ok st =>
+      obtain ⟨els', done⟩ := st
+      simp only [hm] at h
+      rw [strip_attachAllIn _ els' out h]
+      exact strip_attachMap expand _ m (els, []) (els', done) hm
+  | other => simp [attachRefs] at h
+
+/-- the reference map is honoured: after `setRefs`, the element carries exactly the given list -/
+theorem setRefs_get (els els' : Dict) (el : String) (v : J) (h : setRefs els el v = .ok els') :
+    ∃ e', Dict.get? els' el = some (.obj e') ∧ Dict.get? e' "references" = some v := by
+  have get_set : ∀ (d : Dict) (k : String) (x : J), Dict.get? (Dict.set d k x) k = some x := by
+    intro d k x
+    induction d with
+    | nil => simp [Dict.set, Dict.get?]
+    | cons kv rest ih =>
+      obtain ⟨k0, v0⟩ := kv
+      unfold Dict.set
+      by_cases hk : (k0 == k) = true
+      · simp [hk, Dict.get?]
+      · simp only [hk, Bool.false_eq_true, if_false]
+        simp only [Dict.get?, List.find?_cons, hk] at ih ⊢
+        exact ih
+  unfold setRefs at h
+  cases hg : Dict.get? els el with
+  | none => simp [hg] at h
+  | some j =>
+    cases j with
+    | obj e =>
+      simp only [hg] at h
+      cases h
+      exact ⟨_, get_set _ _ _, get_set _ _ _⟩
+    | null => simp [hg] at h
+    | bool _ => simp [hg] at h
+    | num _ => simp [hg] at h
+    | str _ => simp [hg] at h
+    | arr _ => simp [hg] at h
+
+/-- non-vacuity: a two-element dictionary, a reference map naming one element; the other gets the empty list -/
+example :
+    (attachRefs (fun k => .ok [k]) [("1", .obj [("electron_shells", .arr [])]), ("6", .obj [("ecp_electrons", .num "2")])]
+      (.map [("6", .one "ref1")])).toOption.map (fun d => d.map (fun kv => (kv.1, match kv.2 with | .obj e => Dict.keys e | _ => [])))
+      = some [("1", ["electron_shells", "references"]), ("6", ["ecp_electrons", "references"])] := by decide
+
 end BSE.Props.C17
